@@ -423,14 +423,15 @@ void cmb_process_timers_clear(struct cmb_process *pp)
                                                       listhead);
 
         if (pa->type == CMI_PROCESS_AWAITABLE_TIME) {
-            /* Recycle the tag */
+            /* Recycle the tag, it is not ours to read once it is back in the pool */
+            const uint64_t handle = (uint64_t)pa->handle;
             cmi_slist_pop(awaits);
             cmi_mempool_free(&cmi_process_awaitabletags, pa);
 
             /* Cancel the corresponding wakeup event */
-            cmb_assert_debug(pa->handle != UINT64_C(0));
-            cmb_logger_info(stdout, "Cancels timeout event %" PRIu64, pa->handle);
-            const bool found = cmb_event_cancel(pa->handle);
+            cmb_assert_debug(handle != UINT64_C(0));
+            cmb_logger_info(stdout, "Cancels timeout event %" PRIu64, handle);
+            const bool found = cmb_event_cancel(handle);
             cmb_assert_debug(found);
         }
         else {
